@@ -64,6 +64,24 @@ CHECKS = {
              "the design question: Create is not injective for dashed shorts (recorded known finding F-14a).",
         note="Trusted: TLC, RELEASE_TYPES read from the working tree, 2-3 representatives per class.",
         design="4 C14"),
+    "C15": dict(
+        technique="TLA+ lexical spec ComposeId.tla (Encode / DecodeRef / shipped DecodeImpl with Dev_LastWindow deviation): TLC checks the layouts and enumerates them; real create_compose_id / validator / get_date_type_respin / legacy loader compared",
+        text="TLC enumerates every ID layout of the domain (digit runs as length classes: version runs of 1-10 digits, date-like versions, respins "
+             "of 1-8 digits, all release/base-product/compose types), checks Valid, StartsOk and ImplOk (the repaired decoding algorithm; the "
+             "as-shipped one yields the respin >= 10^7 counterexample), and each layout is concretised with seed-drawn digits on the real "
+             "ComposeInfo: created id == documented layout, passes the library's validation, decodes to the fields used, also when the id is "
+             "the only carrier (0.0/0.2 composeinfo documents); decode-only table of documented and unknown suffixes.",
+        note="Trusted: TLC, digit drawing (leading digit non-zero). RHEL-5 variant-suffix hack outside the domain.",
+        design="4 C15"),
+    "C19": dict(
+        technique="TLA+ product-automaton spec RegexAmbiguity.tla over NFAs extracted from the working tree's patterns: TLC decides exponential ambiguity; pumped families timed on every public validator in a killable child process",
+        text="All patterns handed to `re` (AST scan + observed while the repository's tests run + module-level compiled objects) are "
+             "translated to NFAs (translation validated against `re` on all words <= 4) and TLC exhaustively searches the product automaton "
+             "for two different edge sequences q -> q over one word (exponential ambiguity), yielding pump words; 26 public validators/parsers "
+             "incl. loads() are timed on prefix + pump^n + suffix for every pattern atom, key atom pairs and TLC's pump words: inputs <= 48 "
+             "characters must finish within 2 s and doubling n may multiply the time by at most 2^5.5.",
+        note="Trusted: TLC, the sre parse tree, wall-clock with generous growth thresholds. Polynomial degree is measured, not modelled (IDA not in the spec).",
+        design="4 C19"),
 }
 
 
